@@ -90,6 +90,7 @@ fn image_lattice(quick: bool) -> Vec<V4> {
 const PERMS: [[f32; 3]; 6] = [[0.0, 1.0, 0.25], [0.0, 0.25, 1.0], [1.0, 0.0, 0.25], [1.0, 0.25, 0.0], [0.25, 0.0, 1.0], [0.25, 1.0, 0.0]];
 fn viewports(quick: bool) -> Vec<(u32, u32, (u32, u32, u32, u32))> {
     let mut v = vec![(8, 8, (0, 0, 8, 8)), (8, 6, (1, 2, 7, 5))];
+    // (a wide and a tall target - columns/rows beyond 255 - are exercised on a subset of scenes, see run_image)
     if !quick { v.extend([(5, 5, (2, 2, 3, 3)), (1, 1, (0, 0, 1, 1)), (16, 9, (0, 0, 16, 9)), (9, 7, (0, 0, 9, 7))]); } else { v.push((7, 5, (0, 0, 7, 5))); }
     v
 }
@@ -112,6 +113,10 @@ fn run_image(cfg: &Cfg) -> ! {
             let (bw, bh, vp) = vps[vi as usize];
             let scene = Scene { tris: vec![STri { v: t, a }], bw, bh, vp };
             if i % 8 == 0 { for d in DOORS { for k in KINDS { check_image(&scene, d, k, r); } } }
+            if i % 512 == 7 && vi == 0 {
+                // scale sentinels: 300x3 and 3x300 targets, viewport offset inside
+                for (bw, bh, vp) in [(300u32, 3u32, (2u32, 0u32, 300u32, 3u32)), (3, 300, (0, 40, 3, 300))] { check_image(&Scene { tris: scene.tris.clone(), bw, bh, vp }, DOORS[(i / 512 % 3) as usize], KINDS[(i / 1536 % 3) as usize], r); }
+            }
             else { check_image(&scene, DOORS[((i / 8 + vi) % 3) as usize], KINDS[((i / 24 + vi) % 3) as usize], r); }
         }
     }));
@@ -627,6 +632,9 @@ fn run_config(cfg: &Cfg) -> ! {
         for (j, b) in pool.iter().enumerate() { if (i + 2 * j) % 5 == 0 && i != j { scenes.push(Scene { tris: vec![a.clone(), b.clone()], bw, bh, vp }); if (i + j) % 3 == 0 { scenes.push(Scene { tris: vec![b.clone(), a.clone(), pool[(i + j) % pool.len()].clone()], bw, bh, vp }); } } }
     }
     scenes.push(Scene { tris: vec![], bw: 4, bh: 4, vp: (0, 0, 4, 4) });
+    // scale sentinels: hundreds of triangles in one call (counters beyond 255), and a wide buffer (columns beyond 255)
+    scenes.push(Scene { tris: (0..300).map(|k| pool[k % pool.len()].clone()).collect(), bw: 8, bh: 8, vp: (0, 0, 8, 8) });
+    scenes.push(Scene { tris: (0..70).map(|k| pool[(k * 5) % pool.len()].clone()).collect(), bw: 300, bh: 4, vp: (0, 0, 300, 4) });
     // slivers that survive clipping and culling but span no pixel-row (or pixel-column) centre: they must still be counted
     for (k, ys) in [[-0.35f32, -0.30, -0.15], [0.02, 0.10, 0.22], [-0.98, -0.90, -0.80]].iter().enumerate() {
         for w in [1.0f32, 2.5] {
